@@ -73,6 +73,10 @@ def gen(rng, tier):
     # the client's connect handler uses the namespace at once: it emits with
     # a callback, and the server's answer must reach that callback
     cfg['connect_emits'] = rng.random() < 0.3
+    # at the very end: a call() that times out (its handler is slow), then a
+    # perfectly normal call() on the same namespace while the late answer of
+    # the first is still on its way
+    cfg['late_ack'] = rng.choice([None, None, None, 'c2s', 's2c'])
     if rng.random() < 0.3:
         # a second sender at wire level: consecutive events in ONE polling
         # payload (handled by the server back to back)
@@ -136,6 +140,10 @@ def _run(case, cfg, w):
 
     def make_plan(who):
         def plan(label, args, ev):
+            if label[3] == 'slow':
+                tag = args[-1]
+                return [('pause', 0.2 if tag == 'A' else 0.3),
+                        ('ret', 'ans-' + tag)]
             if who == 'c' and label[3] == 'connect' and \
                     cfg.get('connect_emits'):
                 ns = label[2]
@@ -366,6 +374,33 @@ def _run(case, cfg, w):
                               % (direction, i, trepr(m['ret']),
                                  trepr(r['call'][1]), trepr(wantc)),
                               direction)
+    la = cfg.get('late_ack')
+    if la and look_mark[0] is None and (la == 'c2s' or
+                                        cfg['async_handlers']):
+        ns = cfg['nss'][0]
+        recv_t, who = (srv, 's') if la == 'c2s' else (c, 'c')
+        recv_t.on('slow', w.make_handler((who, 'func', ns, 'slow'),
+                                         make_plan(who),
+                                         w.mode == 'async'), namespace=ns)
+        kw = {'namespace': ns}
+        if la == 's2c':
+            kw['to'] = sids[ns]
+        snd = c if la == 'c2s' else srv
+        h1 = w.call(snd.call, 'slow', 'A', timeout=0.05, **kw)
+        w.settle(horizon=0.0)
+        w.advance(0.08)
+        rec.count('fault.call_timeout')
+        h2 = w.call(snd.call, 'slow', 'B', timeout=5, **kw)
+        w.advance(1.0)
+        w.settle()
+        if not h1.done or type(h1.exc).__name__ != 'TimeoutError':
+            v.add('call_timeout', 'call() with a 0.05 s timeout to a handler '
+                  'that takes 0.2 s: %r / %r' % (h1.result, h1.exc))
+        if not h2.done or h2.exc is not None or h2.result != 'ans-B':
+            v.add('call_result_after_timeout', '%s: after a call() that '
+                  'timed out, the next call() returned %s / raised %r; its '
+                  'handler returned %r' % (la, trepr(h2.result), h2.exc,
+                                           'ans-B'), la)
     burst = case.get('burst')
     if burst and look_mark[0] is None:
         wp = w.add_peer('s')
